@@ -640,3 +640,44 @@ Qed.
 
 Example add_attr_leaks : allowed 7 [1; 2]%Z [] = false /\ allowed 7 [1; 2]%Z (add_attr 7 []) = true.
 Proof. split; reflexivity. Qed.
+
+(* ------------------------------------------------------------------------------------------- *)
+(* Part 5: frame condition for caller-owned dicts shared between constructions *)
+
+Section ConstructProofs.
+  Variable Descr Ctl : Type.
+  Variable build : Descr -> Ctl * Descr.
+  Variable eqv : Descr -> Descr -> Prop.          (* the two dicts agree on everything a construction reads *)
+  Hypothesis build_ext : forall d d', eqv d d' -> fst (build d) = fst (build d').
+  (* FRAME: what a construction leaves in the caller's dicts is equivalent to what it found
+     (it may add defaults it would compute anyway, it may not record decisions) *)
+  Hypothesis build_frame : forall d, eqv (snd (build d)) d.
+
+  Theorem shared_description_frame : forall (edit : Descr -> Descr),
+    (forall d d', eqv d d' -> eqv (edit d) (edit d')) ->
+    forall d, build_after Descr Ctl build edit d = fst (build (edit d)).
+  Proof. intros edit He d. unfold build_after. apply build_ext. apply He. apply build_frame. Qed.
+End ConstructProofs.
+
+(* instance: the hook list of the unchanged Controller.__init__ satisfies the frame condition
+   although the list object in the caller's dict grows by [DefaultHooks, CPUTimings] on every construction *)
+Definition hooks_eqv (a b : list nat) : Prop := dedup_acc [] (0 :: 1 :: a) = dedup_acc [] (0 :: 1 :: b).
+
+Lemma build_hooks_ext : forall a b, hooks_eqv a b -> fst (build_hooks a) = fst (build_hooks b).
+Proof. intros a b H. exact H. Qed.
+
+Lemma build_hooks_frame : forall a, hooks_eqv (snd (build_hooks a)) a.
+Proof. intros a. unfold hooks_eqv, build_hooks. simpl. reflexivity. Qed.
+
+Example shared_hook_list_nonvacuous : forall user,
+  build_after _ _ build_hooks (fun l => l) user = fst (build_hooks user).
+Proof.
+  intros. apply (shared_description_frame _ _ build_hooks hooks_eqv build_hooks_ext build_hooks_frame (fun l => l)). auto.
+Qed.
+
+(* a construction that RECORDS hooks registered by convergence controllers in the caller's list violates the frame *)
+Definition build_hooks_recording (registered : list nat) (user : list nat) : list nat * list nat :=
+  let written := 0 :: 1 :: user ++ registered in (dedup_acc [] written, written).
+Example recording_breaks_frame :
+  fst (build_hooks_recording [] (snd (build_hooks_recording [7] [5]))) <> fst (build_hooks_recording [] [5]).
+Proof. vm_compute. discriminate. Qed.
